@@ -44,7 +44,7 @@ PROPS = {
         K('window_recovery_contract', 'C06.kani.time_based_recovery_in_range_never_decreases_at_most_120_fast_recovery_left_at_12000',
           note='alloc::fmt::format stubbed (debug-only string on the growth path)'),
     ]),
-    'C08': dict(units=['core_all', 'hk', 'events'], level='proof'),
+    'C08': dict(units=['core_all', 'hk', 'events', 'drain'], level='proof'),
     'C12': dict(units=['core_all', 'events', 'drain'], level='proof'),
     'C13': dict(units=['core_all', 'events'], level='proof', kani=[
         K('effective_stall_window_formula', 'C13.kani.effective_window_is_clamp_4srtt_1000_ceiling_and_pull_window_below_it'),
@@ -54,18 +54,19 @@ PROPS = {
         K('smooth_rtt_never_negative_or_nan', 'C14.kani.smoothed_rtt_never_negative'),
         K('keepalive_packet_telemetry', 'C14.kani.keepalive_of_the_real_link_carries_timestamp_and_current_telemetry'),
     ]),
-    'C07': dict(units=['reg', 'events', 'hk'], level='proof',
+    'C07': dict(units=['core_all', 'reg', 'events', 'hk'], level='proof',
                 kani=[K('reg_packets_layout', 'C07.kani.reg_packets_carry_type_and_id')]),
-    'C16': dict(units=[], level='proof', kani=[
+    'C16': dict(units=[], level='proof',
+                not_covered=['exact factors x0.85 (back-off), x0.75 (drain entry) and the 6 % per-tick growth bound: float multiplier reasoning, the three Kani harnesses (kx/src/cc.rs: cc_tick_backoff_085, cc_tick_drain_075, cc_tick_growth_at_most_6_percent) did not terminate in 40 min and are NOT run', 'LinkCcController::tick_all (per-link map glue, garbage collection of vanished links)'],
+                kani=[
         K('cc_tick_range_and_wf', 'C16.kani.tick.target_in_range_and_floor_until_rtt_sample'),
         K('cc_tick_lowered_only_by_backoff_or_drain_entry', 'C16.kani.tick.lowered_only_by_backoff_or_drain_entry'),
         K('cc_loss_latch_hysteresis', 'C16.kani.loss_latch.enter_055_for_4s_clear_below_025'),
         K('cc_tick_backoff_never_raises_never_below_delivered', 'C16.kani.tick.backoff_never_raises_and_never_cuts_below_the_delivered_rate'),
         K('cc_tick_drain_cuts_once', 'C16.kani.tick.drain_lowers_only_on_entry'),
-        K('cc_tick_backoff_085', 'C16.kani.tick.backoff_factor_085', tier='thorough', note='float multiplier reasoning; may not terminate (then undecided)'),
-        K('cc_tick_drain_075', 'C16.kani.tick.drain_factor_075', tier='thorough', note='float multiplier reasoning; may not terminate'),
-        K('cc_tick_growth_at_most_6_percent', 'C16.kani.tick.growth_at_most_6_percent', tier='thorough', note='float multiplier reasoning; may not terminate'),
         K('cc_tick_growth_bounded_at_floor_after_bootstrap', 'C16.kani.tick.growth_bounded_at_floor_after_bootstrap'),
+        K('cc_tick_grows_only_when_climbing_and_never_beyond_2x_measured', 'C16.kani.tick.grows_only_when_climbing_and_never_beyond_twice_the_measured_rate', tier='thorough',
+          note='comparison-only clauses; about 2 min of CBMC'),
     ]),
     'C17': dict(units=['cls'], level='proof'),
     'C18': dict(units=['ctl'], level='proof',
